@@ -11,6 +11,7 @@ from ..consteval import const_eval
 from ..index import unparse
 from .. import query as Q
 from ..rules import escape as E
+from ..rules import escape2 as E2
 
 NINJA_FUNCS = [
     E.NINJA_SYN + ':NinjaFile._write_variable',
@@ -23,9 +24,10 @@ NINJA_FUNCS = [
 def ninja_sites(ctx):
     repo = ctx.repo
     table, members = E.escape_table(repo, E.NINJA_SYN)
-    sites = E.emission_sites(ctx, NINJA_FUNCS, E.NINJA_SYN, members,
-                             E.classify_ninja)
-    ctx.require_min('ESC-NINJA', len(sites), 6, 'ninja emission sites')
+    sites = E2.writer_sites(ctx, [E.NINJA_SYN + ':NinjaFile.write'],
+                            E.NINJA_SYN)
+    ctx.ob('ESC-NINJA', 'ninja-writer-sites|found', len(sites) >= 6, None,
+           'only {} ninja writer sites found'.format(len(sites)))
     ctx.stat('ninja_emission_sites', len(sites))
     ctx.stat('ninja_escape_table', {
         m: ([repr(o) for o in ops] if ops is not None else 'rejected')
@@ -39,34 +41,27 @@ def cmd_indirection(ctx):
              'variable reference `cmd` only and passes the real command as '
              'the build-scoped variable `cmd`, so it is $-evaluated exactly '
              'once')
-    repo = ctx.repo
-    f = repo.func('bfg9000.backends.ninja.writer:command_build')
-    rules = [c for c in Q.calls(f.node) if unparse(c.func) ==
-             'buildfile.rule']
-    Q.require(rules, 'command_build: no buildfile.rule call')
-    for c in rules:
-        cmd = Q.kwarg(c, 'command')
-        ok = cmd is not None and unparse(cmd) in (
-            "shell.shell_list([var('cmd')])", "[var('cmd')]")
-        ctx.ob(R, f.fq + '|rule-command-is-$cmd', ok, c,
-               'generic rule command is {} instead of the variable '
-               'reference cmd'.format(unparse(cmd) if cmd else None))
-    builds = [c for c in Q.calls(f.node) if unparse(c.func) ==
-              'buildfile.build']
-    Q.require(builds, 'command_build: no buildfile.build call')
-    for c in builds:
-        v = Q.kwarg(c, 'variables')
-        if v is None:
-            continue
-        vals = [x for x in Q.local_assignments(f.node, unparse(v))
-                if x is not None]
-        ok = any(isinstance(x, ast.Dict) and any(
-            const_eval(repo, f.module, k) == 'cmd' and unparse(val) ==
-            'command' for k, val in zip(x.keys, x.values)) for x in vals)
-        ctx.ob(R, f.fq + '|command-passed-as-build-variable', ok, c,
-               'the command is not passed as build-scoped variable `cmd`')
-    # build-scoped variables are written with Syntax.shell (description:
-    # clean) -> covered by ESC-NINJA sites of _write_build
+    from ..facts import Facts, direct, has, has_call, has_const, param_of
+    F = getattr(ctx, '_facts', None)
+    if F is None:
+        F = ctx._facts = Facts(ctx.repo)
+    f = F.fn('bfg9000.backends.ninja.writer:command_build')
+    rules = [e for e in F.effects(f, lambda e: e.name == 'rule', depth=1)
+             if Q.kwarg(e.call, 'command') is not None]
+    ok = bool(rules) and all(
+        any("var('cmd')" in a for a in e.arg(kw='command')) and
+        not param_of(e.arg(kw='command'), 'command') for e in rules)
+    ctx.ob(R, f.fq + '|rule-command-is-$cmd', ok, f.node,
+           'generic rule command is not the variable reference cmd (only)')
+    builds = [e for e in F.effects(f, lambda e: e.name == 'build', depth=1)
+              if Q.kwarg(e.call, 'variables') is not None]
+    ok = bool(builds)
+    for e in builds:
+        rec = F.flow.record(Q.kwarg(e.call, 'variables'), e.fn, e.bind)
+        ok = ok and rec is not None and 'cmd' in rec and param_of(
+            F.flow.rec_atoms(rec, 'cmd'), 'command')
+    ctx.ob(R, f.fq + '|command-passed-as-build-variable', ok, f.node,
+           'the command is not passed as build-scoped variable `cmd`')
 
 
 def check(ctx):
@@ -79,16 +74,17 @@ def check(ctx):
         'that sh un-quoting o ninja $-evaluation o quote is the identity for '
         'every string', 'Windows cmd /s /c wrapping (posix assumption)']
     table, members, sites = ninja_sites(ctx)
-    E.esc_rule(ctx, 'ESC-NINJA', sites, table,
-               only_contexts={'NJ_VARVALUE'})
-    E.position_rule(ctx, 'SYNTAX-POSITION',
-                    [s for s in sites if 'NJ_VARVALUE' in s[2]])
-    E.write_flow(ctx, E.NINJA_SYN, {'shell'})
-    E.lit_sites(ctx, [E.NINJA_SYN, 'bfg9000.backends.ninja.writer'],
-                minimum=12)
-    E.literal_origin(ctx)
-    E.sh_safe(ctx, include_make_recipe=False)
+    E2.esc_members(ctx, 'ESC-NINJA', E.NINJA_SYN, table, {'NJ_VARVALUE'})
+    E2.position_rule(ctx, 'SYNTAX-POSITION', sites, [
+        r for r in E2.NINJA_ROLES if set(r[1]) & {'shell', 'clean'}],
+        'ninja')
+    E2.write_flow(ctx, E.NINJA_SYN, {'shell'})
+    E2.lit_sites(ctx, [E.NINJA_SYN, 'bfg9000.backends.ninja.writer'],
+                 minimum=8)
+    E2.literal_origin(ctx)
+    E2.sh_safe(ctx, include_make_recipe=False)
     cmd_indirection(ctx)
-    from ..rules import graph as G
-    ctx.rule('ENV-EXPORT', 'command steps export their environment for every command of the step')
-    G.env_export(ctx, 'ENV-EXPORT', backends=('ninja',))
+    ctx.rule('ENV-EXPORT', 'command steps export their environment for '
+             'every command of the step')
+    from .c01 import _env_export
+    _env_export(ctx, 'ENV-EXPORT', ('ninja',))
